@@ -537,7 +537,8 @@ where
 /// - `?` becomes `.` (match any single character)
 /// - `.` becomes `\.` (literal dot)
 fn glob_to_regex(pattern: &str) -> String {
-    let mut regex = String::from("^");
+    // `(?s)`: `?` and `**` must also match a line feed inside a key (`.` excludes it by default).
+    let mut regex = String::from("(?s)^");
     let mut chars = pattern.chars().peekable();
 
     while let Some(ch) = chars.next() {
